@@ -105,17 +105,18 @@ def blsUncompress (c : FieldCodec F) (b : F) (bs : List Nat) : Option (WPoint F)
       if x = 0 then none                          -- BLST_POINT_NOT_IN_GROUP: (0, ±2)
       else some (some (x, y))
 
-/-- `blst_p1_deserialize` = success (`POINTonE1_Deserialize_Z`): `from_uncompressed_unchecked`.
-Note the second branch: a string whose compression bit is set is decoded as a *compressed*
-point from its first half; the second half is ignored. -/
+/-- `from_uncompressed_unchecked` of `g1.rs` / `g2.rs`: `bytes[0] & 0x80 == 0` and
+`blst_p1_deserialize` = success (`POINTonE1_Deserialize_Z`). blst itself would parse a string
+whose compression bit is set as a *compressed* point from its first half; the wrapper rejects
+that form since fix c6a63c4. -/
 def blsDeserialize (c : FieldCodec F) (b : F) (bs : List Nat) : Option (WPoint F) :=
   let in0 := bs.headD 0
-  if in0 &&& 0xe0 = 0 then
+  if in0 &&& 0x80 ≠ 0 then none
+  else if in0 &&& 0xe0 = 0 then
     match c.ofBe 3 (bs.take c.size), c.ofBe 0 (bs.drop c.size) with
     | some x, some y =>
       if y * y = rhs b x then (if x = 0 then none else some (some (x, y))) else none
     | _, _ => none
-  else if in0 &&& 0x80 ≠ 0 then blsUncompress c b (bs.take c.size)
   else if in0 &&& 0x40 ≠ 0 ∧ in0 &&& 0x3f = 0 ∧ allZero (bs.drop 1) then some none
   else none
 
@@ -165,13 +166,13 @@ def secpEncode : WPoint (Fp Params.secpP) → List Nat
   | none => List.replicate 33 0
   | some (x, y) => (if y.isOdd then 3 else 2) :: natToBe 32 x.v
 
-/-- `AffinePoint::from_bytes` of `k256` on the 33-byte `CompressedPoint`: besides the SEC1 tags
-`02`/`03` the `sec1` crate also parses tag `05` ("compact": x only) at this length, which
-`k256` decompacts with the even `y`. -/
+/-- `K256Affine::from_bytes` / `K256::from_bytes`: the all-zero string is the identity; otherwise
+only the SEC1 tags `02` / `03` are accepted (the x-only "compact" tag `05`, which the `sec1`
+parser admits at this length, is rejected since fix 82051ee). -/
 def secpDecode (bs : List Nat) : Option (WPoint (Fp Params.secpP)) :=
   if allZero bs then some none else
   let tag := bs.headD 0
-  if tag ≠ 2 ∧ tag ≠ 3 ∧ tag ≠ 5 then none else
+  if tag ≠ 2 ∧ tag ≠ 3 then none else
   let xv := beToNat (bs.drop 1)
   if xv ≥ Params.secpP then none else
   let x : Fp Params.secpP := ⟨xv⟩
